@@ -4,6 +4,7 @@ payload = {"scratch": dir, "cases": [case, ...]}
   case = {"op": "tree", "tree": T, "twin": bool}            -> len / validate / export / absolute addresses
        | {"op": "fmt", "tree": T, "formats": [...], "exec": int|None}   -> save -> load through real files
        | {"op": "bin", "content": hex}                      -> BIN save -> load of one flat image
+       | {"op": "hist", "tree": T, "change": {...}, "fresh": T}  -> export twice, change the layout, export, compare with a fresh tree
        | {"op": "cfg", "size", "al", "pat", "regions": [...]}  -> BinaryImage.load_from_config (binary-image merge)
   errors are reported as "!e1" (SPSDKError family) / "!e2:<class>" (other exception) / "!e3" (hang)
   T = {"size": int, "al": int, "off": int, "bin": hex, "pat": None | text, "kids": [[append(0/1), T], ...]}
@@ -136,6 +137,48 @@ def handler(payload):
                 os.remove(path)
             except OSError:
                 pass
+            out.append(res)
+        elif op == "hist":
+            # export twice; change the layout through the public API; export again; compare with a fresh tree
+            r = guarded(lambda: build(case["tree"]))
+            if r[0] != "ok":
+                out.append({"build": outcome(r)})
+                continue
+            img = r[1]
+
+            def snap(i):
+                d = {}
+                q = guarded(lambda: len(i))
+                d["len"] = q[1] if q[0] == "ok" else outcome(q)
+                q = guarded(i.validate)
+                d["validate"] = "ok" if q[0] == "ok" else outcome(q)
+                q = guarded(i.export)
+                d["export"] = bytes(q[1]).hex() if q[0] == "ok" else outcome(q)
+                return d
+
+            res = {"build": "ok", "first": snap(img), "second": snap(img)}
+            ch = case["change"]
+            node = img
+            for ix in ch.get("path", []):
+                node = node.sub_images[ix]
+
+            def apply_change():
+                if ch["kind"] == "add":
+                    node.add_image(build(ch["child"]))
+                elif ch["kind"] == "append":
+                    node.append_image(build(ch["child"]))
+                elif ch["kind"] == "bin":
+                    node.binary = bytes.fromhex(ch["bin"])
+                elif ch["kind"] == "off":
+                    node.offset = ch["off"]
+                else:
+                    raise SystemExit("unknown change")
+            q = guarded(apply_change)
+            res["change"] = "ok" if q[0] == "ok" else outcome(q)
+            res["after"] = snap(img)
+            res["after2"] = snap(img)
+            f = guarded(lambda: build(case["fresh"]))
+            res["fresh"] = snap(f[1]) if f[0] == "ok" else {"build": outcome(f)}
             out.append(res)
         elif op == "cfg":
             # the engine of `nxpimage utils binary-image merge`: BinaryImage.load_from_config
